@@ -545,24 +545,395 @@ def check_maxseqs(ctx, rng, n):
                 return
 
 
+# ---------------------------------------------------------------------------------------------- large collections
+# Counts depend only on the multisets of elements (theorem C05_order_invariant; one collection: symmetric metric), so the
+# histogram of a collection of thousands of elements drawn from a handful of distinct ones follows from the proved counts
+# of the model on the DISTINCT elements, weighted by multiplicities:
+#   cross:  sum_{u in X, v in Y} m_u m'_v [d(u,v) in bin t]
+#   one:    sum_{u<v} m_u m_v [d(u,v) in bin t] + sum_u m_u(m_u-1)/2 [d(u,u) in bin t]
+SLOW_US = 3.0e-6        # seconds per pair of the Python-scorer metrics (non-unit weights, user-defined Metric)
+
+
+def expand(multi, seed):
+    import random
+    out = []
+    for e, m in multi:
+        out += [e] * m
+    random.Random(seed).shuffle(out)
+    return out
+
+
+def large_full(lc):
+    case = {k: v for k, v in lc.items() if k not in ('mx', 'my', 'seed')}
+    case['xs'] = expand(lc['mx'], lc['seed'])
+    case['ys'] = None if lc['my'] is None else expand(lc['my'], lc['seed'] + 1)
+    return case
+
+
+def npairs_large(lc):
+    n = sum(m for _, m in lc['mx'])
+    return n * (n - 1) // 2 if lc['my'] is None else n * sum(m for _, m in lc['my'])
+
+
+def multiset_counts(ctx, lc):
+    small = dict(lc, xs=[e for e, _ in lc['mx']], ys=None if lc['my'] is None else [e for e, _ in lc['my']])
+    dx, dy = case_rows(small)
+    kind, wi, wd, ws = model_metric(small)
+    edges = DEFAULT_EDGES if lc['bins'] is None else [fr(x) for x in lc['bins']]
+    mx = [m for _, m in lc['mx']]
+    reqs, wts = [], []
+    if dy is None:
+        for i, u in enumerate(dx):
+            reqs.append(('api_c05_counts', [kind, wi, wd, ws, [u, u], None, edges]))
+            wts.append(mx[i] * (mx[i] - 1) // 2)
+            for j in range(i + 1, len(dx)):
+                reqs.append(('api_c05_counts', [kind, wi, wd, ws, [u, dx[j]], None, edges]))
+                wts.append(mx[i] * mx[j])
+    else:
+        my = [m for _, m in lc['my']]
+        for i, u in enumerate(dx):
+            for j, v in enumerate(dy):
+                reqs.append(('api_c05_counts', [kind, wi, wd, ws, [u], [v], edges]))
+                wts.append(mx[i] * my[j])
+    outs = ctx.oracle.run(reqs)
+    counts = [0] * (len(edges) - 1)
+    for o, w in zip(outs, wts):
+        if isinstance(o, Exception):
+            raise o
+        for t, c in enumerate(o):
+            counts[t] += w * c
+    return counts
+
+
+def describe_large(lc):
+    def coll(multi, seed):
+        n = sum(m for _, m in multi)
+        if len(multi) == 1:
+            return '[%r] * %d' % (multi[0][0], n)
+        return '<%d elements: %s, order random.Random(%d).shuffle>' % (n, ' + '.join('[%r] * %d' % (e, m) for e, m in multi), seed)
+    small = dict(lc, xs='X', ys=None)
+    tail = describe(small)[len("pcDelta(X"):]
+    return 'pcDelta(%s%s%s' % (coll(lc['mx'], lc['seed']), '' if lc['my'] is None else ', ' + coll(lc['my'], lc['seed'] + 1), tail)
+
+
+def norm_exact(lc, counts):
+    """the statement's counts/total resp. (count + c)/(total + 2c) on counts too large for the oracle's unary naturals; check_large compares this
+    with api_c05_spec_norm on a scaled-down expansion of the same multisets in every case"""
+    norm = True if lc['normalize'] is None else lc['normalize']
+    c = Fraction(0) if lc['pseudocount'] is None else fr(lc['pseudocount'])
+    total = sum(counts)
+    if not norm:
+        return [Fraction(x) for x in counts]
+    if c == 0 and total == 0:
+        return [None] * len(counts)
+    return [(x + c) / (total + 2 * c) for x in counts]
+
+
+def eval_large(ctx, lc):
+    try:
+        counts = multiset_counts(ctx, lc)
+    except Exception as e:
+        return ('correspondence', 'oracle rejected %s: %s' % (describe_large(lc), e))
+    case = large_full(lc)
+    exp = norm_exact(lc, counts)
+    impl = call_pcdelta(case)
+    norm = True if lc['normalize'] is None else lc['normalize']
+    if not vec_ok(impl, exp, integral=not norm):
+        return ('property', '%s = %s but the %s of all %d %s pairs is %s (raw counts %s, from the proved counts on the distinct elements '
+                'weighted by multiplicities)' % (describe_large(lc), show(impl), 'raw counts' if not norm else 'normalised histogram', npairs_large(lc),
+                                                 'cross' if lc['my'] is not None else 'unordered', ['nan' if q is None else str(q) for q in exp][:30], counts[:30]))
+    return None
+
+
+def rescale(multi, n):
+    tot = sum(m for _, m in multi)
+    out = [[e, max(1, m * n // tot)] for e, m in multi]
+    out[0][1] += max(0, n - sum(m for _, m in out))
+    return out
+
+
+def shrink_large(ctx, lc, budget=25.0):
+    """simplify parameters, collapse to one distinct element, bisect the sizes - while the property still fails, within a time budget"""
+    import time
+    t0 = time.time()
+
+    def fails(c):
+        if time.time() - t0 > budget:
+            return False
+        try:
+            r = eval_large(ctx, c)
+        except Exception:
+            return False
+        return r is not None and r[0] == 'property'
+    cur = dict(lc)
+    for k, v in (('normalize', False), ('pseudocount', None), ('container', 'list'), ('bins_container', 'list')):
+        if cur.get(k) != v:
+            cand = dict(cur)
+            cand[k] = v
+            if fails(cand):
+                cur = cand
+    cand = dict(cur, mx=[[cur['mx'][0][0], sum(m for _, m in cur['mx'])]],
+                my=None if cur['my'] is None else [[cur['my'][0][0], sum(m for _, m in cur['my'])]])
+    if fails(cand):
+        cur = cand
+    for which in ('mx', 'my'):
+        if cur[which] is None:
+            continue
+        hi = sum(m for _, m in cur[which])
+        lo = max(2 if which == 'mx' else 1, len(cur[which])) - 1
+        while hi - lo > 1 and time.time() - t0 < budget:
+            mid = (lo + hi) // 2
+            cand = dict(cur)
+            cand[which] = rescale(cur[which], mid)
+            if sum(m for _, m in cand[which]) == mid and fails(cand):
+                cur, hi = cand, mid
+            else:
+                lo = mid
+    return cur
+
+
+def gen_large_case(rng, P, tcr=False, one=False, slow_budget=0.5):
+    """a collection (pair of collections) with slightly MORE than P pairs, lengths not multiples of one another, drawn from 3-5 distinct short elements"""
+    root = math.isqrt(P)
+    if one:
+        n1 = math.isqrt(2 * P) + 2
+        n1 += rng.randint(0, max(1, n1 // 16))
+        n2 = None
+    else:
+        if rng.random() < 0.3:
+            n2 = root                                # e.g. 4097 x 4096
+            n1 = P // n2 + rng.randint(1, 3)
+        else:
+            n2 = rng.randint(max(2, root // 3), root)
+            n1 = P // n2 + rng.randint(1, max(1, (P // n2) // 8))
+        if rng.random() < 0.5:
+            n1, n2 = n2, n1
+    k = rng.randint(3, 5)
+    slow_ok = (n1 * (n1 - 1) // 2 if one else n1 * n2) * SLOW_US <= slow_budget
+
+    def weights(sym):
+        if not slow_ok or rng.random() < 0.4:
+            return [1, 1, 1]
+        w = [rng.choice([1, 1, 2, 3]) for _ in range(3)]
+        if sym:
+            w[1] = w[0]
+        return w
+    if tcr:
+        def elems(kk):
+            return [[''.join(rng.choice('ACS') for _ in range(rng.randint(0, 4))), ''.join(rng.choice('ACS') for _ in range(rng.randint(0, 4)))] for _ in range(kk)]
+        lc = dict(kind='tcr', cols=rng.choice(['A', 'B', 'AB', 'AB']))
+        if rng.random() < 0.5:
+            lc['metric'] = ['default']
+        else:
+            ok = [m for m, need in (('alpha', 'A'), ('beta', 'B')) if need in lc['cols']] + (['cdr3'] if lc['cols'] == 'AB' else [])
+            lc['metric'] = [rng.choice(ok)] + weights(one)
+        maxd = 4 * max(lc['metric'][1:] or [1]) * (2 if lc['cols'] == 'AB' else 1)
+    else:
+        alphabet = rng.choice(['AB', 'ACD', 'ACDEFGHIKLMNPQRSTVWY', 'Cé中'])
+        maxlen = rng.choice([1, 2, 3, 5])
+
+        def elems(kk):          # the groups need not be distinct for the multiplicity formula to hold
+            return [''.join(rng.choice(alphabet) for _ in range(rng.randint(0, maxlen))) for _ in range(kk)]
+        lc = dict(kind='str', cols=None)
+        m = rng.random()
+        if m < 0.35:
+            lc['metric'] = ['default']
+        elif m < 0.55:
+            lc['metric'] = ['lev']
+        elif m < 0.85 or not slow_ok:
+            lc['metric'] = ['wlev'] + weights(one)
+        else:
+            lc['metric'] = ['custom'] + weights(one)
+        lc['container'] = rng.choice(['list', 'list', 'ndarray', 'series'])
+        maxd = maxlen * max(lc['metric'][1:] or [1])
+
+    def split(elems, n):
+        cuts = sorted(rng.sample(range(1, n), len(elems) - 1)) if len(elems) > 1 else []
+        return [[e, b - a] for e, a, b in zip(elems, [0] + cuts, cuts + [n])]
+    lc['mx'] = split(elems(k), n1)
+    lc['my'] = None if one else split(elems(rng.randint(3, 5)), n2)
+    lc['seed'] = rng.randrange(2 ** 30)
+    rand_params(rng, lc, maxd)
+    if rng.random() < 0.6:          # raw counts over edges covering every distance: every missing / doubled pair shows
+        lc['normalize'] = False
+        lc['bins'], lc['bins_container'] = [str(v) for v in range(0, maxd + 2)], rng.choice(['range', 'list', 'ndarray'])
+    return lc
+
+
+def check_large(ctx, rng, plan):
+    """plan: list of (P, tcr, one, slow_budget)"""
+    for P, tcr, one, slow_budget in plan:
+        lc = gen_large_case(rng, P, tcr, one, slow_budget)
+        ctx.count('large:%s pairs>2^%d' % ('one' if one else 'cross', P.bit_length() - 1))
+        # the multiplicity formula itself, against the model on a scaled-down expansion of the same multisets
+        mini = dict(lc, mx=rescale(lc['mx'], 3 * len(lc['mx'])), my=None if lc['my'] is None else rescale(lc['my'], 2 * len(lc['my'])))
+        mc = large_full(mini)
+        rows, rows2 = case_rows(mc)
+        kind, wi, wd, ws = model_metric(mc)
+        edges = DEFAULT_EDGES if lc['bins'] is None else [fr(x) for x in lc['bins']]
+        direct = ctx.oracle.run([('api_c05_counts', [kind, wi, wd, ws, rows, rows2, edges])])[0]
+        if direct != multiset_counts(ctx, mini) or norm_exact(mini, direct) != expected_from(mc, direct, ctx):
+            ctx.violation('correspondence', 'harness: multiplicity-weighted counts %s / their normalisation differ from the model counts %s on %s' % (
+                multiset_counts(ctx, mini), direct, describe_large(mini)), dict(large=mini), site='harness.c05[multiset]')
+            return
+        counts = multiset_counts(ctx, lc)
+        ctx.case(nontrivial_key=('large', describe_large(lc)) if sum(1 for x in counts if x) >= 2 else None)
+        res = eval_large(ctx, lc)
+        if res is not None:
+            if res[0] == 'property':
+                small = shrink_large(ctx, lc)
+                r2 = eval_large(ctx, small)
+                if r2 is not None and r2[0] == 'property':
+                    lc, res = small, r2
+            ctx.violation(res[0], res[1], dict(large=lc), site='distance.pcDelta[large collections]')
+            return
+
+
+def large_plan(rng, quick):
+    H = 2 ** 24
+    if quick:
+        # more than 2**24 pairs: cross form only (0.3 - 1.5 s each); the one-collection form of that size (4 - 6 s) is in the thorough tier
+        plan = [(H, False, False, 0.3), (H, False, False, 0.3), (H, True, False, 0.3), (2 ** 22, False, True, 0.3)]
+        plan += [(2 ** e, rng.random() < 0.3, rng.random() < 0.3, 0.3) for e in (12, 14, 16, 16, 18, 18, 20, 20, 22)]
+    else:
+        plan = [(H, rng.random() < 0.3, rng.random() < 0.3, 0.4) for _ in range(14)] + [(H, False, False, 80.0), (2 ** 25, False, False, 0.4), (2 ** 25, True, False, 0.4)]
+        plan += [(2 ** rng.randint(10, 23), rng.random() < 0.3, rng.random() < 0.3, 2.0) for _ in range(100)]
+    rng.shuffle(plan)
+    return plan
+
+
+BG_SPELLINGS = [((), {}), ((), dict(return_bins=True)), ((True,), {}), ((), dict(return_bins=False)), ((False,), {})]
+
+
+def bundled_table():
+    """the bundled CSV read independently of pandas: (column names, index values, rows of floats)"""
+    import csv, os
+    import pyrepseq as prs
+    with open(os.path.join(os.path.dirname(prs.__file__), 'data', 'pcdelta_pbmc_minervina.csv'), newline='') as f:
+        rows = list(csv.reader(f))
+    return rows[0][1:], [int(r[0]) for r in rows[1:]], [[float(x) for x in r[1:]] for r in rows[1:]]
+
+
+def bg_mutations(rng):
+    """in-place modifications a caller may apply to the objects an earlier call returned (label, function(table, bins))"""
+    def last_catch_all(t, b):
+        if b is not None:
+            b[-1] = 1000
+
+    def shift_bins(t, b):
+        if b is not None:
+            b += rng.randint(1, 3)
+
+    def scale_bins(t, b):
+        if b is not None:
+            b *= 2
+
+    def zero_bins(t, b):
+        if b is not None:
+            b[:] = 0
+
+    def renormalise(t, b):
+        t /= t.sum() * rng.choice([1, 2])
+
+    def zero_table(t, b):
+        t.iloc[:, :] = 0.0
+
+    def one_cell(t, b):
+        t.iloc[rng.randrange(len(t)), rng.randrange(t.shape[1])] = 7.0
+
+    def drop_rows(t, b):
+        t.drop(index=t.index[rng.randint(1, len(t) - 1):], inplace=True)
+
+    def drop_first(t, b):
+        t.drop(index=t.index[0], inplace=True)
+
+    def reindex(t, b):
+        t.index = [int(i) + 1 for i in t.index]
+
+    def rename(t, b):
+        t.rename(columns={t.columns[0]: 'x'}, inplace=True)
+
+    def add_column(t, b):
+        t['extra'] = 1.0
+
+    def drop_column(t, b):
+        t.drop(columns=t.columns[-1], inplace=True)
+    return [last_catch_all, shift_bins, scale_bins, zero_bins, renormalise, zero_table, one_cell, drop_rows, drop_first, reindex, rename, add_column, drop_column]
+
+
 def check_background(ctx, rng):
     import pyrepseq as prs
     bins_m, rows = ctx.oracle.run([('api_c05_background', [0])])[0]
     dn, dp, dedges = ctx.oracle.run([('api_c05_defaults', [0])])[0]
+    cols_f, index_f, vals_f = bundled_table()
+
+    def spell(sp):
+        return 'load_pcDelta_background(%s)' % ', '.join([repr(a) for a in sp[0]] + ['%s=%r' % kv for kv in sp[1].items()])
+
+    def pristine(sp, res):
+        """None if the call returned the bundled table (and bins 0..rows), else what is wrong"""
+        want_bins = not ((sp[0] and sp[0][0] is False) or sp[1].get('return_bins') is False)
+        if res[0] != 'ok':
+            return 'raised %s' % (res,)
+        if want_bins:
+            if not (isinstance(res[1], tuple) and len(res[1]) == 2):
+                return 'did not return (table, bins): %r' % (type(res[1]),)
+            back, bins = res[1]
+            if not (isinstance(bins, np.ndarray) and bins.ndim == 1 and np.issubdtype(bins.dtype, np.integer) and [int(x) for x in bins] == bins_m == list(range(rows + 1))):
+                return 'bins = %s are not the consecutive integers 0..%d' % (list(np.asarray(bins).tolist()), rows)
+        else:
+            back = res[1]
+        if not isinstance(back, pd.DataFrame):
+            return 'table is a %r' % (type(back),)
+        if len(back) != rows or (want_bins and len(bins) != len(back) + 1):
+            return 'table has %d rows, the bundled one %d' % (len(back), rows)
+        if [int(i) for i in back.index] != bins_m[:-1] or [int(i) for i in back.index] != index_f:
+            return 'table index = %s, not 0..%d' % (list(back.index), rows - 1)
+        if [str(c) for c in back.columns] != cols_f:
+            return 'table columns = %s, bundled %s' % (list(back.columns), cols_f)
+        got = back.to_numpy(dtype=float)
+        if got.shape != (rows, len(cols_f)) or not np.allclose(got, np.array(vals_f), rtol=1e-12, atol=0.0, equal_nan=True):
+            bad = [(i, c) for i in range(rows) for c in range(len(cols_f)) if not np.isclose(got[i, c], vals_f[i][c], rtol=1e-12, atol=0.0, equal_nan=True)]
+            return 'table values differ from the bundled file at (row, column) %s' % (bad[:5],)
+        return None
+
     impl = call_impl(prs.load_pcDelta_background)
-    only = call_impl(prs.load_pcDelta_background, return_bins=False)
     ctx.case(nontrivial_key=('background',))
-    ok = impl[0] == 'ok' and isinstance(impl[1], tuple) and len(impl[1]) == 2
-    if ok:
-        back, bins = impl[1]
-        ok = ([int(b) for b in bins] == bins_m == list(range(len(back) + 1)) and len(back) == rows
-              and [int(i) for i in back.index] == bins_m[:-1] and only[0] == 'ok' and isinstance(only[1], pd.DataFrame)
-              and only[1].equals(back) and [Fraction(e) for e in dedges] == [Fraction(b) for b in bins_m])
-    if not ok:
-        ctx.violation('property', 'load_pcDelta_background() bins %s / table rows do not match consecutive integers 0..rows (model %s, %d rows)' % (
-            impl[1][1] if impl[0] == 'ok' and isinstance(impl[1], tuple) else impl, bins_m, rows), dict(func='load_pcDelta_background'),
-            site='distance.load_pcDelta_background')
+    why = pristine(BG_SPELLINGS[0], impl)
+    if why is None and [Fraction(e) for e in dedges] != [Fraction(b) for b in bins_m]:
+        why = 'bins differ from the default edges of pcDelta'
+    if why is not None:
+        ctx.violation('property', 'load_pcDelta_background(): %s (model: bins %s, %d rows)' % (why, bins_m, rows), dict(func='load_pcDelta_background'),
+                      site='distance.load_pcDelta_background')
         return
+    # every call returns the bundled table and bins 0..rows - whatever the caller did IN PLACE with the objects an earlier call
+    # returned (a catch-all last bin, renormalised columns, dropped rows ...)
+    muts = bg_mutations(rng)
+    order = BG_SPELLINGS * 3
+    rng.shuffle(order)
+    history = []
+    for step, sp in enumerate(order + BG_SPELLINGS):
+        res = call_impl(prs.load_pcDelta_background, *sp[0], **sp[1])
+        why = pristine(sp, res)
+        ctx.count('background_after_inplace_edit')
+        ctx.case(nontrivial_key=('background-again', step, spell(sp)) if history else None)
+        if why is not None:
+            ctx.violation('property', '%s: %s - after the caller had modified in place the objects returned by earlier calls: %s' % (
+                spell(sp), why, '; '.join(history) if history else '(nothing)'), dict(func='load_pcDelta_background', steps=history + [spell(sp)]),
+                site='distance.load_pcDelta_background[repeated call]')
+            return
+        t, b = res[1] if isinstance(res[1], tuple) else (res[1], None)
+        for f in rng.sample(muts, rng.randint(1, 3)):
+            if b is None and f.__name__.endswith('bins') or (b is None and f.__name__ == 'last_catch_all'):
+                continue
+            if len(t) < 3 and f.__name__.startswith('drop'):
+                continue
+            try:
+                f(t, b)
+                history.append('%s -> %s' % (spell(sp), f.__name__))
+            except Exception:
+                pass
+    back, bins = call_impl(prs.load_pcDelta_background)[1]
     for _ in range(8):
         xs = rand_strings(rng, rng.randint(3, 12), 'ACDEFGHIKLMNPQRSTVWY', rng.choice([3, 15, 30]))
         a = call_impl(prs.pcDelta, xs, bins=bins, normalize=False)
@@ -573,6 +944,10 @@ def check_background(ctx, rng):
         if not (a[0] == 'ok' and b[0] == 'ok' and len(a[1]) == len(back) and [int(x) for x in a[1]] == cnt == [int(x) for x in b[1]]):
             ctx.violation('property', 'pcDelta(%s, bins=<background bins>) = %s does not align with the %d table rows / default bins give %s (model %s)' % (
                 xs, show(a), len(back), show(b), cnt), dict(xs=xs), site='distance.pcDelta[background bins]')
+            return
+        if [int(x) for x in bins] != bins_m:
+            ctx.violation('property', 'pcDelta(%s, bins=<background bins>) modified the caller\'s bins to %s' % (xs, bins.tolist()), dict(xs=xs),
+                          site='distance.pcDelta[background bins]')
             return
 
 
@@ -600,7 +975,9 @@ def run(ctx):
                 'bins in {None, range, random increasing integer / half-integer / mixed edges as list, tuple, ndarray} with distances below the first and beyond '
                 'the last edge and on edges; (c) TCR tables with CDR3A / CDR3B / both columns, extra columns, permuted and relabelled index, legacy tuple, default '
                 'and explicit TCR metrics; (d) bins=0 vs pc; (e) zero bin vs sum n_i(n_i-1)/2; (f) maxseqs: result must be the histogram of one of the '
-                'sub-collections of exactly min(N, maxseqs) elements enumerated by the model; (g) load_pcDelta_background bins vs table rows vs default bins. '
+                'sub-collections of exactly min(N, maxseqs) elements enumerated by the model; (g) load_pcDelta_background bins vs table rows vs default bins vs the bundled file, '
+                'again after the caller modified the returned table / bins in place, every call spelling; (h) large collections (2**12 .. more than 2**24 pairs, '
+                'lengths not multiples of one another, 3-5 distinct elements): expected counts from the model on the distinct elements weighted by multiplicities. '
                 'non-trivial := N >= 3 and at least two non-empty bins (for d-g: the quantity is not degenerate)')
     ctx.exhaustive = True
     q = ctx.quick
@@ -617,6 +994,7 @@ def run(ctx):
     check_bins0(ctx, rng, 120 if q else 2000)
     check_zero_bin(ctx, rng, 80 if q else 1500)
     check_maxseqs(ctx, rng, 100 if q else 1500)
+    check_large(ctx, rng, large_plan(rng, q))
     check_background(ctx, rng)
     check_default_metric(ctx)
     ctx.assumptions += ['numpy.histogram bin convention (half-open bins, last bin closed, values outside dropped): modelled, exercised with values on every edge',
@@ -628,6 +1006,13 @@ def run(ctx):
 def replay(ctx, obj):
     rp = obj.get('replay') or {}
     case = rp.get('case')
+    if isinstance(rp.get('large'), dict) and 'mx' in rp['large']:
+        lc = rp['large']
+        res = eval_large(ctx, lc)
+        ctx.case(nontrivial_key=('replay', describe_large(lc)))
+        if res is not None:
+            ctx.violation(res[0], res[1], dict(large=lc), site=obj.get('site'))
+        return
     if isinstance(case, dict) and case.get('bins') != '0' and 'xs' in case and case.get('maxseqs') is None:
         res = eval_case(ctx, case)
         ctx.case(nontrivial_key=('replay', describe(case)))
